@@ -125,6 +125,26 @@ def g1_boundary_y(j):
     return (x, y)
 
 
+@functools.lru_cache(maxsize=512)
+def g2_boundary_y(which, seed):
+    """A point of E'(Fp2) whose y sits exactly at the sign boundary of the ZCash ordering:
+    which = 0/1: y_im = (p-1)/2 / (p+1)/2 (y_re from the seed); which = 2/3: y_im = 0 and
+    y_re = (p-1)/2 / (p+1)/2.  x is a cube root of y^2 - b2 in Fp2 (exists for a third of the y)."""
+    half = (P - 1) // 2
+    for k in range(200):
+        if which < 2:
+            y = ((seed * 7919 + k) % P, half + which)
+        else:
+            if k:
+                return None
+            y = (half + (which - 2), 0)
+        x = BLS.fp2_cbrt(F2.sub(F2.mul(y, y), B.B2))
+        if x is not None:
+            assert BLS.on_curve("G2", (x, y))
+            return (x, y)
+    return None
+
+
 def describe(g, pt):
     """Classes a point belongs to (labels)."""
     if pt is None:
@@ -139,6 +159,9 @@ def describe(g, pt):
             out.append("y_re=0")
         if pt[0][0] == 0 or pt[0][1] == 0:
             out.append("x_component=0")
+        half = (P - 1) // 2
+        if y[1] in (half, half + 1) or (y[1] == 0 and y[0] in (half, half + 1)):
+            out.append("y_at_boundary")
     else:
         if pt[0] == 0:
             out.append("x=0")
@@ -182,6 +205,8 @@ def point_desc(g, subgroup_only=False):
         parts.append(st.one_of(st.integers(1, 300), uniform_int(1, P - 1)).map(zc))
         parts.append(st.integers(1, 300).map(zc).map(
             lambda d: mk(d["kind"] + ":neg", BLS.neg("G2", unjp(d["pt"])))))
+        bnd = [(w, sd) for w in (0, 1, 2, 3) for sd in range(6) if g2_boundary_y(w, sd) is not None]
+        parts.append(st.sampled_from(bnd).map(lambda t: mk("y_boundary", g2_boundary_y(*t))))
     else:
         valid_j = [j for j in range(0, 48) if g1_boundary_y(j) is not None]
         parts.append(st.sampled_from(valid_j).map(lambda j: mk("y_boundary", g1_boundary_y(j))))
